@@ -124,6 +124,23 @@ RandomAccessIterator3 parallel_multiway_merge_base(
             total_size, comp, chunks.data(), num_threads);
     }
 
+    // the slab in which the output reaches 'size' elements: its chunk begins
+    // are advanced by multiway_merge_base() past exactly what it consumed
+    size_t last_slab = num_threads - 1;
+    {
+        DiffType reached = 0;
+        for (size_t t = 0; t < num_threads; ++t)
+        {
+            for (size_t s = 0; s < num_seqs; ++s)
+                reached += chunks[t][s].second - chunks[t][s].first;
+            if (reached >= static_cast<DiffType>(size))
+            {
+                last_slab = t;
+                break;
+            }
+        }
+    }
+
 #if defined(_OPENMP)
 #pragma omp parallel num_threads(num_threads)
     {
@@ -137,10 +154,14 @@ RandomAccessIterator3 parallel_multiway_merge_base(
             local_size += chunks[iam][s].second - chunks[iam][s].first;
         }
 
-        multiway_merge_base<Stable, false>(
-            chunks[iam].begin(), chunks[iam].end(), target + target_position,
-            std::min(local_size, static_cast<DiffType>(size) - target_position),
-            comp, mwma);
+        // with sampling splitting a slab may begin at or behind 'size'
+        if (target_position < static_cast<DiffType>(size))
+            multiway_merge_base<Stable, false>(
+                chunks[iam].begin(), chunks[iam].end(),
+                target + target_position,
+                std::min(local_size,
+                         static_cast<DiffType>(size) - target_position),
+                comp, mwma);
     }
 #else
     std::vector<std::thread> threads(num_threads);
@@ -156,12 +177,14 @@ RandomAccessIterator3 parallel_multiway_merge_base(
                 local_size += chunks[iam][s].second - chunks[iam][s].first;
             }
 
-            multiway_merge_base<Stable, false>(
-                chunks[iam].begin(), chunks[iam].end(),
-                target + target_position,
-                std::min(local_size,
-                         static_cast<DiffType>(size) - target_position),
-                comp, mwma);
+            // with sampling splitting a slab may begin at or behind 'size'
+            if (target_position < static_cast<DiffType>(size))
+                multiway_merge_base<Stable, false>(
+                    chunks[iam].begin(), chunks[iam].end(),
+                    target + target_position,
+                    std::min(local_size,
+                             static_cast<DiffType>(size) - target_position),
+                    comp, mwma);
         });
     }
 
@@ -169,14 +192,13 @@ RandomAccessIterator3 parallel_multiway_merge_base(
         threads[i].join();
 #endif
 
-    // update ends of sequences: the last thread's chunk begins were advanced
-    // by multiway_merge_base() past exactly the elements it consumed (its
-    // chunks may reach further than 'size' elements with sampling splitting)
+    // update ends of sequences: with sampling splitting the chunks may reach
+    // further than 'size' elements, the consumed part ends in last_slab
     size_t count_seqs = 0;
     for (RandomAccessIteratorIterator ii = seqs_begin; ii != seqs_end; ++ii)
     {
         if (ii->first != ii->second)
-            ii->first = chunks[num_threads - 1][count_seqs++].first;
+            ii->first = chunks[last_slab][count_seqs++].first;
     }
 
     return target + size;
